@@ -190,7 +190,7 @@ mod verif_c02 {
         std::mem::forget(ms);
     }
 
-    // @harness id=C02 tier=thorough timeout=3400 mem=16 checks=rust
+    // @harness id=C02 tier=deep timeout=3400 mem=16 checks=rust
     // @bounds 3 members in order [2,0,1], all drawn, previous frame of 0..=3 rows, any member redraws: the frame below the log shows each member's latest rendering exactly once in that order
     #[kani::proof]
     #[kani::unwind(7)]
@@ -199,7 +199,7 @@ mod verif_c02 {
         frame([2, 0, 1], 9);
     }
 
-    // @harness id=C02 tier=thorough timeout=3400 mem=16 checks=rust
+    // @harness id=C02 tier=deep timeout=3400 mem=16 checks=rust
     // @bounds 3 members in order [1,2,0], member 2 never drawn, previous frame of 0..=3 rows (the frame shrinks): only the drawn members, in order
     #[kani::proof]
     #[kani::unwind(7)]
